@@ -302,10 +302,11 @@ def run(tier: str, seed: int) -> Report:
     # (TLC subprocesses run in the background while the real runs are produced; results are
     #  collected in a fixed order below)
     mcs = ["len2", "len3", "live"] + (["len3tags", "len4"] if thorough else [])
-    tp = ThreadPoolExecutor(max_workers=4)
+    tp = ThreadPoolExecutor(max_workers=3)
+    # the largest model is started first with most of the cores
     mc_futs = {c: tp.submit(tlc.run_tlc, "MC_DbLog", f"MC_DbLog_{c}.cfg", timeout=3000, coverage=(c == "len2"),
-                            workers=(8 if c in ("len4", "len3tags") else 4))
-               for c in mcs}
+                            workers=(10 if c == "len4" else 3))
+               for c in sorted(mcs, key=lambda c: c != "len4")}
     neg_futs = {c: tp.submit(tlc.run_tlc, "MC_DbLog", f"MC_DbLog_{c}.cfg", timeout=600, workers=2)
                 for c in NEG_CONTROLS}
 
